@@ -294,6 +294,7 @@ pub fn gen_case(prop: &str, thorough: bool, weak: bool, rng: &mut Rng) -> Case {
         "C11" if rng.below(3) == 0 => return gen_c11_readonly(rng, cfg, thorough),
         "C07" | "C01" | "C03" if rng.below(4) == 0 => return gen_aba_storm(rng, cfg, thorough),
         "C07" | "C10" if rng.below(5) == 0 => return gen_guard_roundtrip(rng, cfg, thorough),
+        "C10" | "C06" | "C02" if rng.below(8) == 0 => return gen_reentrant_destructors(rng, cfg, thorough),
         "C12" | "C03" if rng.below(6) == 0 => return gen_alternating_fallback(rng, cfg, thorough),
         "C18" if rng.below(5) == 0 => {
             // user code inside the library that is not a destructor: projections of Map /
@@ -638,6 +639,76 @@ fn gen_alternating_fallback(rng: &mut Rng, mut cfg: RunCfg, thorough: bool) -> C
     cfg.p_stall_any = choose(rng, &[0, 6, 20]);
     cfg.p_switch_after_mark = choose(rng, &[0, 64]);
     cfg.p_fresh = choose(rng, &[128, 160, 192]);
+    Case {
+        cfg,
+        prog: Program {
+            conts,
+            threads,
+            final_order: rng.below(16) as u8,
+        },
+    }
+}
+
+/// C10 / C06 / C02 (re-entrancy from destructors): the destructor of a stored value itself stores
+/// into (or loads from) another container. It runs wherever the last count goes: inside a store,
+/// a rejected or successful compare_and_swap, an rcu retry, a guard or handle drop — i.e. a write
+/// nested inside another operation of the crate on the same thread, while that thread may hold
+/// guards on the other container's value.
+fn gen_reentrant_destructors(rng: &mut Rng, mut cfg: RunCfg, thorough: bool) -> Case {
+    let k0 = choose(rng, &[CKind::AD, CKind::OD, CKind::AF]);
+    let k1 = choose(rng, &[CKind::AD, CKind::AD, CKind::OD]);
+    let conts = vec![ContSpec { kind: k0, init: Init::New }, ContSpec { kind: k1, init: Init::New }];
+    let mut threads = vec![ThreadProg::default()];
+    let n_workers = 1 + rng.below(if thorough { 3 } else { 2 }) as usize;
+    for _ in 0..n_workers {
+        let mut ops = Vec::new();
+        // guards on the value of the container the destructors will write into
+        for g in 0..rng.below(3) as u8 {
+            ops.push(Op::Load { c: 1, g });
+        }
+        for _ in 0..(1 + rng.below(3)) {
+            ops.push(Op::ArmDropOp {
+                c: 0,
+                into: 1,
+                load: rng.below(4) == 0,
+            });
+            ops.push(match rng.below(5) {
+                0 => Op::Swap { c: 0, v: V::New, h: 0 },
+                1 => Op::Cas {
+                    c: 0,
+                    cur: Cur::Stored,
+                    form: 3,
+                    v: V::New,
+                    g: 5,
+                },
+                2 => Op::Rcu {
+                    c: 0,
+                    r: RcuSpec {
+                        interfere: rng.below(2) as u8,
+                        ..RcuSpec::default()
+                    },
+                    h: 1,
+                },
+                _ => Op::Store { c: 0, v: V::New },
+            });
+            if rng.below(2) == 0 {
+                ops.push(Op::DropHandle { h: rng.below(2) as u8 });
+            }
+            if rng.below(3) == 0 {
+                ops.push(Op::DropGuard { g: 5 });
+            }
+        }
+        for g in 0..3u8 {
+            if rng.below(2) == 0 {
+                ops.push(Op::CheckGuard { g });
+            }
+        }
+        if rng.below(2) == 0 {
+            ops.push(Op::Store { c: 1, v: V::New });
+        }
+        threads.push(ThreadProg { ops, top: true });
+    }
+    cfg.p_fast_slot_refused = choose(rng, &[0, 0, 48]);
     Case {
         cfg,
         prog: Program {
